@@ -120,6 +120,25 @@ def apply_edit(tree, edit: int):
         node.children = [Token("CONDITION_KEY", "888")]
 
 
+_PARAM = {}
+
+
+def _invoke(fns, op, text, s):
+    """strings with an odd index are passed BY KEYWORD (a different lru_cache key than a positional call, and a different
+    path through the copying decorator)"""
+    if s % 2 == 0:
+        return fns[op](text)
+    if op not in _PARAM:
+        with xs.nt():
+            import inspect
+
+            raw = (cep.parse_condition_expression_to_tree, aep.parse_ahb_expression_to_single_requirement_indicator_expressions)[op]
+            fn = _cached_cell(raw).cell_contents
+            fn = getattr(fn, "real", fn)
+            _PARAM[op] = list(inspect.signature(fn.__wrapped__).parameters)[0]
+    return fns[op](**{_PARAM[op]: text})
+
+
 def _step(fns, op, s, edit):
     """one history step; returns None or a failure text"""
     if op == 2:
@@ -148,9 +167,9 @@ def _step(fns, op, s, edit):
     text = (COND, AHB)[op][s]
     which = "condition" if op == 0 else "ahb"
     try:
-        got = fns[op](text)
+        got = _invoke(fns, op, text, s)
     except Exception as e:  # pylint:disable=broad-except
-        return f"parsing '{text}' raised {type(e).__name__}: {e}"
+        return f"parsing '{text}' ({'keyword' if s % 2 else 'positional'} call) raised {type(e).__name__}: {e}"
     with xs.nt():
         want = env.real_parser(which).parse(text)
         ok = same(got, want)
